@@ -160,9 +160,21 @@ Print Assumptions C10_first_wire_cookies.
 
 Theorem C10_first_wire_body : forall detect c s,
   payload_forbid c (r_method s) = false -> c_form c = [] -> r_form s = [] -> r_ordered s = [] ->
+  r_marshal s = None ->
   w_body (wire_of c (prepare detect c s)) = body_now s.
 Proof. exact first_wire_body. Qed.
 Print Assumptions C10_first_wire_body.
+
+(* a marshal body (SetBody with a struct / map): the XML rendering when the request's - else the
+   client's - content type says xml, the JSON rendering otherwise; re-marshalled identically on
+   every attempt (C10_attempts_identical) *)
+Theorem C10_first_wire_marshal_body : forall detect c s m,
+  payload_forbid c (r_method s) = false -> c_form c = [] -> r_form s = [] -> r_ordered s = [] ->
+  r_marshal s = Some m ->
+  w_body (wire_of c (prepare detect c s)) =
+    Some (if is_xml_type (marshal_ct c (prep_header c s)) then snd m else fst m).
+Proof. exact first_wire_marshal_body. Qed.
+Print Assumptions C10_first_wire_marshal_body.
 
 (* ordered form data: the pairs in the caller's order, then the plain form data (client values
    merged once) *)
